@@ -150,6 +150,9 @@ def run(ctx):
         if pr == "ok" and kv.get("concl") != "ok":
             csb_contra += 1
         agg["walk_reaches_end_of_shorter_tree"] = agg.get("walk_reaches_end_of_shorter_tree", 0) + (kv.get("reach") == "1")
+        agg["roots_visible"] = agg.get("roots_visible", 0) + (kv.get("root") == "1")
+        if pr == "ok" and kv.get("root") == "1" and kv.get("reach") != "1":
+            csb_contra += 1   # would contradict walk_reaches_end
         agg["matched_spans"] += int(kv.get("matched", "0") or 0)
         agg["add_calls"] += int(kv.get("calls", "0") or 0)
         if db > 0 or kv.get("rchg") == "1":
@@ -177,7 +180,7 @@ def run(ctx):
                "%d cases with the hypotheses of changed_covers_partial true, port = implementation, and an uncovered differing byte (would contradict the theorem)" % cov_contra)
     ctx.oblige("model:changed_sorted_bounded-instance", csb_contra == 0,
                "%d cases with the premises of changed_sorted_bounded true (sized trees, entry inside both trees, fuel left) whose evaluated "
-               "conclusions (admissible + growing calls, forward spans, ranges inside the longer tree) are false" % csb_contra)
+               "conclusions (admissible + growing calls, forward spans, non-empty ranges inside the longer tree; with visible roots: the walk reaches the end of the shorter tree) are false" % csb_contra)
     ctx.oblige("corr:ranges-functions=C", f_bad == 0 and (f_cmp > 0 or bool(ctx.replay)), "%d/%d disagreements" % (f_bad, f_cmp))
     ctx.oblige("corr:treeChangedRanges=ts_tree_get_changed_ranges", corr_bad == 0, "%d disagreements" % corr_bad)
     ctx.coverage.update({
